@@ -3,6 +3,7 @@ package keywords
 import (
 	"strings"
 	"unicode"
+	"unicode/utf8"
 
 	"github.com/ajitpratap0/GoSQLX/pkg/linter"
 	"github.com/ajitpratap0/GoSQLX/pkg/models"
@@ -316,9 +317,18 @@ func (r *KeywordCaseRule) fixLine(line string, classes []tokenizer.ByteClass) st
 	}
 
 	for i, ch := range line {
+		// what is not part of a word is copied as the bytes it is written with:
+		// a byte that is not valid UTF-8 (text in another encoding inside a
+		// literal or a comment) must not come out as U+FFFD
+		size := 1
+		if ch != utf8.RuneError {
+			size = utf8.RuneLen(ch)
+		} else if _, n := utf8.DecodeRuneInString(line[i:]); n > 1 {
+			size = n // a real U+FFFD in the text
+		}
 		if !isCode(classes, i) {
 			flush()
-			result.WriteRune(ch)
+			result.WriteString(line[i : i+size])
 			continue
 		}
 
@@ -330,7 +340,7 @@ func (r *KeywordCaseRule) fixLine(line string, classes []tokenizer.ByteClass) st
 			currentWord.WriteRune(ch)
 		} else {
 			flush()
-			result.WriteRune(ch)
+			result.WriteString(line[i : i+size])
 		}
 	}
 
